@@ -13,6 +13,7 @@ import (
 	"github.com/aperturerobotics/bifrost/pubsub"
 	pubmessage "github.com/aperturerobotics/bifrost/pubsub/util/pubmessage"
 	stream_packet "github.com/aperturerobotics/bifrost/stream/packet"
+	"github.com/aperturerobotics/bifrost/util/verifhook"
 	"github.com/patrickmn/go-cache"
 	"github.com/pkg/errors"
 	"github.com/sirupsen/logrus"
@@ -348,6 +349,7 @@ func (m *FloodSub) handleValidMessage(
 	if _, ok := m.seenMessages.Get(msgId); ok {
 		return
 	}
+	verifhook.Point("floodsub.seen.gap")
 	m.seenMessages.Set(msgId, pkt, 0)
 
 	pid, err := peer.IDB58Decode(pkt.GetFromPeerId())
